@@ -8,7 +8,6 @@ import (
 	"github.com/junioryono/godi/v4/zzverif/vrt"
 )
 
-
 func H_Probe() {
 	gin.SetMode(gin.TestMode)
 	g := gin.New()
